@@ -696,7 +696,7 @@ def shard_main(ck, shard, nshards):
     R.run_model(gm, seeds, [0 if k % 2 == 0 else 3 + k for k in range(len(seeds))])
   ck.run_hypothesis(test_pinned, st.tuples(gx.pinned(kind), st.lists(mg.state_seed(), min_size=nstates, max_size=nstates, unique=True)),
                     1 if ck.quick else 4, name='pinned-%s-%d' % (kind, shard), shrink=False)
-  strat = st.tuples(gx.models(max_bodies=(2 if ck.quick else 3)),
+  strat = st.tuples(gx.models(max_bodies=(2 if ck.quick else 3), extras=True),
                     st.lists(mg.state_seed(), min_size=nstates, max_size=nstates, unique=True))
   ck.run_hypothesis(test, strat, nmodels, name='mjx-vs-c-%d' % shard, shrink=False)
   ck.extra['worst'] = dict(R.worst.w)
